@@ -440,10 +440,14 @@ fn random(args: &Args) {
         let mut other_live = false;
         let mut n = 0u64;
         let mut sweep = 0usize;
+        let mut refill = false;
         while ok && n < hist_len && done < total {
             // a phase: fill / churn / purge (random or sweeping over the keys in order) / lookups
-            let mode = rng.below(7);
-            let plen = 8 + rng.below(5 * nkeys);
+            // (after emptying a table it is usually filled again)
+            let mode = if refill { [0, 1, 5][rng.below(3)] } else { rng.below(7) };
+            refill = false;
+            // sweeping phases (4: remove the keys in order, 5: insert them in order) go over all keys
+            let plen = if mode == 4 || mode == 5 { nkeys * (1 + rng.below(2)) } else { 8 + rng.below(5 * nkeys) };
             for _ in 0..plen {
                 if !ok {
                     break;
@@ -452,8 +456,9 @@ fn random(args: &Args) {
                 let (pi, pr) = match mode {
                     0 | 1 => (70, 10),
                     2 => (40, 40),
-                    3 | 4 => (5, 75),
-                    5 => (80, 0),
+                    3 => (5, 75),
+                    4 => (0, 95),
+                    5 => (92, 0),
                     _ => (15, 15),
                 };
                 let x = rng.below(100);
@@ -489,7 +494,12 @@ fn random(args: &Args) {
             }
             // between phases: a bulk call, then what the tables contain
             n += 1;
-            match rng.below(12) {
+            // (a table that was purged is often drained / cleared next)
+            let bulk = if (mode == 3 || mode == 4) && rng.chance(1, 2) { 2 + rng.below(4) } else { rng.below(12) };
+            if (2..=5).contains(&bulk) {
+                refill = rng.chance(2, 3);
+            }
+            match bulk {
                 0 | 1 => {
                     let dens = [0u64, 25, 50, 75, 100][rng.below(5)];
                     let p: Vec<u32> = keys.iter().filter(|_| rng.chance(dens, 100)).map(|k| k.0).collect();
